@@ -84,7 +84,7 @@ theorem may_alias_same_address (P : Prog) (R : Res) (hp : ptrClosed P R = true) 
 
 def exP : Prog :=
   { funcs := #[
-      ⟨[], [], [.alloc 0 0, .addr 1 (.reg 0) (.field 7), .store (.reg 1) none (.reg 0), .load 2 (.reg 1) none,
+      ⟨[], [], [.alloc 0 0, .addr 1 (.reg 0) (.field 7), .store (.reg 1) [] (.reg 0), .load 2 (.reg 1) [],
                .call 0 (.static 1) [.reg 2] [3] false]⟩,
       ⟨[0], [], [.ret [.reg 0]]⟩],
     methods := [], roots := [0] }
@@ -129,13 +129,13 @@ example : ∃ σ, Reachable exP σ ∧ ∃ stk ∈ σ.threads, ∃ fr ∈ stk, f
         (Exec.addr 1 (.reg 0) (.field 7) o [] (CSel.field 7) (by simp [eval, f1, Frame.set]) rfl))
   have s3 : Step exP ⟨[] ++ [f2] :: [], emptyMem⟩ none ⟨[] ++ [f2] :: [] ++ [], m1⟩ :=
     Step.mk [] [] [f2] [f2] emptyMem m1 none none
-      (TStep.next f2 [] emptyMem (.store (.reg 1) none (.reg 0)) f2 m1 (by decide)
-        (Exec.store (.reg 1) none (.reg 0) o [CSel.field 7] [CSel.field 7]
-          (by simp [eval, f2, Frame.set]) (by simp [Ext])))
+      (TStep.next f2 [] emptyMem (.store (.reg 1) [] (.reg 0)) f2 m1 (by decide)
+        (Exec.store (.reg 1) [] (.reg 0) o [CSel.field 7] [CSel.field 7]
+          (by simp [eval, f2, Frame.set]) ⟨[], rfl, by simp⟩))
   have s4 : Step exP ⟨[] ++ [f2] :: [], m1⟩ none ⟨[] ++ [f3] :: [] ++ [], m1⟩ :=
     Step.mk [] [] [f2] [f3] m1 m1 none none
-      (TStep.next f2 [] m1 (.load 2 (.reg 1) none) f3 m1 (by decide)
-        (Exec.load 2 (.reg 1) none o [CSel.field 7] [CSel.field 7] (by simp [eval, f2, Frame.set]) (by simp [Ext])))
+      (TStep.next f2 [] m1 (.load 2 (.reg 1) []) f3 m1 (by decide)
+        (Exec.load 2 (.reg 1) [] o [CSel.field 7] [CSel.field 7] (by simp [eval, f2, Frame.set]) ⟨[], rfl, by simp⟩))
   refine ⟨_, Reachable.step (Reachable.step (Reachable.step (Reachable.step Reachable.init s1) s2) s3) s4,
     [f3], by simp, f3, by simp, rfl, ?_⟩
   simp [f3, f2, f1, m1, Frame.set, Mem.setHeap, o]
